@@ -25,15 +25,24 @@ import (
 // C14 — status records are updated atomically w.r.t. every other reader and writer.
 
 type C14Plan struct {
-	Fresh  bool       `json:"fresh"`  // the record does not exist yet when the tasks start (first writes race on an empty file)
-	Procs  [][]string `json:"procs"`  // per simulated OS process: operations (inc, load, basic)
-	Daemon [][]string `json:"daemon"` // per daemon goroutine on one BaseWorkUnit: operations (inc, load, basic)
+	Real   *RealPlan  `json:"real,omitempty"` // the second writer is the real runner process (realrunner_test.go)
+	Fresh  bool       `json:"fresh"`          // the record does not exist yet when the tasks start (first writes race on an empty file)
+	Procs  [][]string `json:"procs"`          // per simulated OS process: operations (inc, load, basic)
+	Daemon [][]string `json:"daemon"`         // per daemon goroutine on one BaseWorkUnit: operations (inc, load, basic)
 	Shrink []string   `json:"_shrink"`
 }
 
 func genC14(seed uint64, tier string) any {
 	r := simnet.NewRng(seed, "c14")
 	p := &C14Plan{Shrink: []string{"procs", "daemon"}}
+	if r.Bool(0.02) {
+		p.Real = genReal(r)
+		p.Real.Cancel = ""
+		if p.Real.Payload == "ignore-int" {
+			p.Real.Payload = "normal"
+		}
+		return p
+	}
 	p.Fresh = r.Bool(0.3)
 	np, nd := r.Range(1, 3), r.Range(0, 3)
 	if p.Fresh {
@@ -181,6 +190,10 @@ var c14Model = porcupine.Model{
 
 func runC14(t *testing.T, planAny any, res *simnet.Result) {
 	p := planAny.(*C14Plan)
+	if p.Real != nil {
+		runReal(t, p.Real, "c14", res)
+		return
+	}
 	runDir := simwork.NewRunDir()
 	defer simwork.RemoveRunDir(runDir)
 	// no simulated clock is needed here: nothing in this protocol waits for time
